@@ -10,10 +10,14 @@ AST_KINDS = ("class", "function", "method", "argparse")
 
 def emit(kind, ir, opts=None):
     """-> artefact: str for docstring kinds, ast node for the others. `ir` is a python IR (deep-copied here)."""
+    return emit_nocopy(kind, copy.deepcopy(ir), opts)
+
+
+def emit_nocopy(kind, ir, opts=None):
+    """the emitter is handed THIS description object"""
     from doctrans import emit as E
 
     o = dict(opts or {})
-    ir = copy.deepcopy(ir)
     if kind in ("rest", "numpydoc", "google"):
         return E.docstring(ir, docstring_format=kind, word_wrap=o.get("word_wrap", False), emit_default_doc=o.get("emit_default_doc", True))
     if kind == "class":
